@@ -240,63 +240,11 @@ func runC05(c *Ctx) {
 	}
 
 	// ---- atomic batches ----------------------------------------------------------------------------------
-	for _, f := range []struct{ pkg, recv, name, dbPath string }{
-		{"kai/rawdb", "", "WriteBlock", "db"},
-		{"kai/state/cstate", "", "saveState", "db"},
-		{"mainchain/blockchain", "BlockChain", "writeHeadBlock", "bc.db"},
-	} {
-		fn := c.Fn(f.pkg, f.recv, f.name)
-		if fn == nil {
-			continue
-		}
-		nb := findInstrs(fn, CallTo(`\)\.NewBatch$`, ""))
-		c.Check("O", fnName(fn)+"/exactly one batch", len(nb) == 1, fn.Pos(), len(nb), fmt.Sprintf("%d NewBatch calls", len(nb)))
-		if len(nb) != 1 {
-			continue
-		}
-		batch := pathOf(nb[0].(*ssa.Call))
-		writeish := func(in ssa.Instruction) (bool, []string) {
-			cc := callCommon(in)
-			if cc == nil {
-				return false, nil
-			}
-			n := calleeNameNoPath(cc)
-			if !re(`(\)\.Put$|\)\.Delete$|^kai/rawdb\.(Write|Delete|write)|^kai/state/cstate\.save)`).MatchString(n) {
-				return false, nil
-			}
-			return true, argPaths(cc)
-		}
-		bad := ""
-		nw := 0
-		for _, b := range fn.Blocks {
-			for _, in := range b.Instrs {
-				if is, a := writeish(in); is {
-					nw++
-					if len(a) == 0 || a[0] != batch {
-						bad = describeInstr(in) + " at " + c.P.Pos(instrPos(in))
-					}
-				}
-			}
-		}
-		c.Check("W", fnName(fn)+"/every record goes through the batch", bad == "" && nw >= 2, fn.Pos(), nw, "a write bypasses the batch (not atomic with the rest): "+bad)
-		flush := func(in ssa.Instruction) bool {
-			cc := callCommon(in)
-			return cc != nil && re(`\)\.Write$`).MatchString(calleeNameNoPath(cc)) && len(argPaths(cc)) == 1 && argPaths(cc)[0] == batch
-		}
-		c.FollowedBy(fn, "NewBatch", func(in ssa.Instruction) bool { return in == nb[0] }, "batch.Write()", flush, "return", AnyReturn())
-		c.AtMostOncePerPath(fn, "batch.Write()", flush)
-		// nothing is put into the batch after it was flushed
-		for _, fl := range findInstrs(fn, flush) {
-			w := &Walker{P: c.P}
-			hit, found := w.Reach(fn, fl.Block(), instrIndex(fl)+1, func(in ssa.Instruction) bool { is, _ := writeish(in); return is })
-			c.Check("O", fnName(fn)+"/no record is added after the flush", !found, instrPos(fl), 1, func() string {
-				if found {
-					return describeInstr(hit.Instr) + " follows batch.Write()"
-				}
-				return ""
-			}())
-		}
-	}
+	c.atomicBatch([]batchFn{
+		{"kai/rawdb", "", "WriteBlock"},
+		{"kai/state/cstate", "", "saveState"},
+		{"mainchain/blockchain", "BlockChain", "writeHeadBlock"},
+	})
 
 	// ---- publish-last ---------------------------------------------------------------------------------------
 	c.publishLast()
@@ -414,6 +362,66 @@ func (c *Ctx) advisoryDroppedErrors() {
 			o := c.add("R", fnName(fn)+"/error of "+calleeNameNoPath(&call.Call)+" is used", map[bool]Verdict{true: Discharged, false: Violated}[used], call.Pos(), 1,
 				"the error result of a durable write is dropped (advisory: an I/O error is not a crash point, so this does not gate C05)")
 			o.Advisory = true
+		}
+	}
+}
+
+type batchFn struct{ pkg, recv, name string }
+
+// atomicBatch: the function opens exactly one batch, every record it writes goes through that batch, the batch is
+// flushed exactly once on every path to a return, and nothing is added after the flush.
+func (c *Ctx) atomicBatch(which []batchFn) {
+	for _, f := range which {
+		fn := c.Fn(f.pkg, f.recv, f.name)
+		if fn == nil {
+			continue
+		}
+		nb := findInstrs(fn, CallTo(`\)\.NewBatch$`, ""))
+		c.Check("O", fnName(fn)+"/exactly one batch", len(nb) == 1, fn.Pos(), len(nb), fmt.Sprintf("%d NewBatch calls", len(nb)))
+		if len(nb) != 1 {
+			continue
+		}
+		batch := pathOf(nb[0].(*ssa.Call))
+		writeish := func(in ssa.Instruction) (bool, []string) {
+			cc := callCommon(in)
+			if cc == nil {
+				return false, nil
+			}
+			n := calleeNameNoPath(cc)
+			if !re(`(\)\.Put$|\)\.Delete$|^kai/rawdb\.(Write|Delete|write)|^kai/state/cstate\.save)`).MatchString(n) {
+				return false, nil
+			}
+			return true, argPaths(cc)
+		}
+		bad := ""
+		nw := 0
+		for _, b := range fn.Blocks {
+			for _, in := range b.Instrs {
+				if is, a := writeish(in); is {
+					nw++
+					if len(a) == 0 || a[0] != batch {
+						bad = describeInstr(in) + " at " + c.P.Pos(instrPos(in))
+					}
+				}
+			}
+		}
+		c.Check("W", fnName(fn)+"/every record goes through the batch", bad == "" && nw >= 2, fn.Pos(), nw, "a write bypasses the batch (not atomic with the rest): "+bad)
+		flush := func(in ssa.Instruction) bool {
+			cc := callCommon(in)
+			return cc != nil && re(`\)\.Write$`).MatchString(calleeNameNoPath(cc)) && len(argPaths(cc)) == 1 && argPaths(cc)[0] == batch
+		}
+		c.FollowedBy(fn, "NewBatch", func(in ssa.Instruction) bool { return in == nb[0] }, "batch.Write()", flush, "return", AnyReturn())
+		c.AtMostOncePerPath(fn, "batch.Write()", flush)
+		// nothing is put into the batch after it was flushed
+		for _, fl := range findInstrs(fn, flush) {
+			w := &Walker{P: c.P}
+			hit, found := w.Reach(fn, fl.Block(), instrIndex(fl)+1, func(in ssa.Instruction) bool { is, _ := writeish(in); return is })
+			c.Check("O", fnName(fn)+"/no record is added after the flush", !found, instrPos(fl), 1, func() string {
+				if found {
+					return describeInstr(hit.Instr) + " follows batch.Write()"
+				}
+				return ""
+			}())
 		}
 	}
 }
